@@ -34,7 +34,9 @@ import (
 // of the bytes absorbed (no collision-freeness assumed; "another message / key / R" obligations are
 // therefore stated as "accepted only under the scalar relation between the hash outputs").
 // (*Variant).ComputeChallenge runs REAL under a spy contract that only re-uses the earlier result
-// object when the same challenge value is computed again. 59 replacement keys (list: result.json).
+// object when the same challenge value is computed again. 77 replacement keys: 58 contracts and 19
+// refusals of unmodelled wrapper methods (a call to one of those is not-encodable); the list entered
+// by a run is in result.json (replacements_used).
 //
 // Inputs: secret key(s), auxiliary randomness, nonces, shifts as 32 symbolic bytes each (assumed
 // canonical and non-zero where stated), a 3-byte symbolic message, and the PARITIES of the points
